@@ -35,6 +35,7 @@ class N3(PaneBase, rename='camel'):
     foo_bar: int
     baz: int = 0
     qux_x: int = field(aliases=('qx',), default=0)
+    r_f: int = field(rename='r_name', default=0)        # an explicit rename= is used verbatim, not re-styled
 
 
 class N4(PaneBase, in_rename=('snake', 'kebab'), out_rename='kebab'):
@@ -62,6 +63,13 @@ class N7(PaneBase, in_format=('struct', 'tuple'), out_format='tuple'):
     x: int = field(default=5, exclude=True)
 
 
+class N9(PaneBase, in_format=('tuple', 'struct'), out_format='tuple'):
+    """positional fields with a default_factory are optional in the tuple layout"""
+    a: int
+    b: t.List[int] = field(default_factory=list)
+    c: int = 0
+
+
 class N8(PaneBase, in_format=('struct',), out_format='struct'):
     """struct only: sequences are refused"""
     a: int = 0
@@ -79,7 +87,8 @@ REF = {
          dict(allow_extra=False, in_format=('struct',), out_format='struct')),
     N3: ((('foo_bar', ('foo_bar', 'fooBar'), 'fooBar', True, True, True, False),
           ('baz', ('baz',), 'baz', False, True, True, False),
-          ('qux_x', ('qux_x', 'quxX', 'qx'), 'quxX', False, True, True, False)),
+          ('qux_x', ('qux_x', 'quxX', 'qx'), 'quxX', False, True, True, False),
+          ('r_f', ('r_f', 'r_name'), 'r_name', False, True, True, False)),
          dict(allow_extra=False, in_format=('struct',), out_format='struct')),
     N4: ((('foo_bar', ('foo_bar', 'foo-bar'), 'foo-bar', True, True, True, False),
           ('baz', ('baz',), 'baz', False, True, True, False)),
@@ -93,21 +102,25 @@ REF = {
     N7: ((('a', ('a',), 'a', True, True, True, False), ('b', ('b',), 'b', False, True, True, False),
           ('x', ('x',), 'x', False, True, True, True)),
          dict(allow_extra=False, in_format=('struct', 'tuple'), out_format='tuple')),
+    N9: ((('a', ('a',), 'a', True, True, True, False), ('b', ('b',), 'b', False, True, True, False),
+          ('c', ('c',), 'c', False, True, True, False)),
+         dict(allow_extra=False, in_format=('tuple', 'struct'), out_format='tuple')),
     N8: ((('a', ('a',), 'a', False, True, True, False),),
          dict(allow_extra=False, in_format=('struct',), out_format='struct')),
 }
-DEFAULT = {N1: {'b': 0}, N2: {'c': 0, 'd': 0, 'e': 0, 'f': 0}, N3: {'baz': 0, 'qux_x': 0}, N4: {'baz': 0}, N5: {'b': 0},
-           N6: {'b': 0, 'c': 'nine', 'd': 1, 'k': 0}, N7: {'b': 0, 'x': 5}, N8: {'a': 0}}
+DEFAULT = {N1: {'b': 0}, N2: {'c': 0, 'd': 0, 'e': 0, 'f': 0}, N3: {'baz': 0, 'qux_x': 0, 'r_f': 0}, N4: {'baz': 0}, N5: {'b': 0},
+           N6: {'b': 0, 'c': 'nine', 'd': 1, 'k': 0}, N7: {'b': 0, 'x': 5}, N8: {'a': 0}, N9: {'b': [], 'c': 0}}
 # key vocabulary per class: every name the class can distinguish in some style + foreign keys
 VOCAB = {
     N1: ('a', 'b', 'A', 'zz'),
     N2: ('a_b', 'ab', 'AB', 'aB', 'c', 'cee', 'C', 'd', 'dee', 'e', 'E', 'f', 'eff', 'F', 'zz'),
-    N3: ('foo_bar', 'fooBar', 'FooBar', 'foo-bar', 'baz', 'qux_x', 'quxX', 'qx', 'zz'),
+    N3: ('foo_bar', 'fooBar', 'FooBar', 'foo-bar', 'baz', 'qux_x', 'quxX', 'qx', 'r_f', 'r_name', 'rName', 'zz'),
     N4: ('foo_bar', 'foo-bar', 'fooBar', 'FOO_BAR', 'baz', 'zz'),
     N5: ('a', 'b', 'zz', 'yy'),
     N6: ('a', 'b', 'c', 'k'),
     N7: ('a', 'b', 'x', 'zz'),
     N8: ('a', 'zz'),
+    N9: ('a', 'b', 'c'),
 }
 for _c in REF:
     make_converter(_c)
@@ -298,6 +311,22 @@ def body_seq_{name}(n: int, ck: int, i1: int, i2: int, i3: int, i4: int, i5: int
 '''
 for _c in (N6, N7, N1, N8):
     exec(_SEQ.format(name=_c.__name__, maxn=5 if _c is N6 else 4, wit=(0, -1) if _c in (N6, N7) else (-1,)))
+
+
+@obligation(pre="0 <= n <= 4 and 0 <= ck <= 1", witnesses=(0, -1), timeout=120)
+def body_seq_N9(n: int, ck: int, i1: int, i2: int, i3: int) -> int:
+    """N9: a positional field with a default_factory may be omitted from a sequence (length between required and total)"""
+    xs = []
+    if n >= 1:
+        xs.append(i1)
+    if n >= 2:
+        xs.append([i2])
+    if n >= 3:
+        xs.append(i3)
+    if n >= 4:
+        xs.append(0)
+    v, real = carrier(ck, xs)
+    return check_sequence(N9, v, n, real)
 
 for _c in REF:
     for _d in ({'a': 1}, {}, {'a': 1, 'zz': 2}, {'foo_bar': 1}, {'fooBar': 1, 'foo_bar': 2}, {'a_b': 1, 'ab': 2}, {'foo-bar': 1}):
